@@ -413,12 +413,25 @@ func getInvoiceByRef(ctx context.Context,
 		}
 
 		// If the ref also specifies a payment address, verify it
-		// matches the invoice found by hash. A mismatch means the ref
-		// is equivocating — the hash points to one invoice and the
-		// address points to another.
+		// matches the invoice found by hash. On a mismatch the ref is
+		// equivocating if the address points to another invoice. An
+		// address that is unknown altogether is ignored and the hash
+		// decides (see InvoiceRefByHashAndAddr), the same way the kv
+		// store resolves such a ref.
 		payAddr := ref.PayAddr()
-		if payAddr != nil && *payAddr != BlankPayAddr {
-			if !bytes.Equal(invoice.PaymentAddr, payAddr[:]) {
+		if payAddr != nil && *payAddr != BlankPayAddr &&
+			!bytes.Equal(invoice.PaymentAddr, payAddr[:]) {
+
+			_, err := db.GetInvoiceByAddr(ctx, payAddr[:])
+			switch {
+			case errors.Is(err, sql.ErrNoRows):
+
+			case err != nil:
+				return sqlc.Invoice{}, fmt.Errorf("unable to "+
+					"fetch invoice by payment address: %w",
+					err)
+
+			default:
 				return sqlc.Invoice{}, ErrInvRefEquivocation
 			}
 		}
